@@ -49,6 +49,7 @@ GEOIP = {
     "geoip.dat": [
         {"code": "cn", "cidrs": [{"ip": "1.2.3.0", "bits": 24}, {"ip": "2001:db8::", "bits": 32}], "inverse": False},
         {"code": "PRIVATE", "cidrs": [{"ip": "10.0.0.0", "bits": 8}, {"ip": "192.168.0.0", "bits": 16}, {"ip": "1.2.3.0", "bits": 24}], "inverse": False},
+        {"code": "lan", "cidrs": [{"ip": "192.168.1.0", "bits": 24}, {"ip": "192.168.1.1", "bits": 16}, {"ip": "10.0.0.1", "bits": 8}], "inverse": False},
         {"code": "empty", "cidrs": [], "inverse": False},
         {"code": "inv", "cidrs": [{"ip": "8.8.8.0", "bits": 24}], "inverse": True},
     ],
@@ -148,6 +149,62 @@ PROBES = {
                   ("c.org", 5, [], "asis"), ("ads.b.com", 1, ["8.8.8.8"], "googledns"), ("x.y.org", 1, ["192.168.0.1"], "asis"),
                   ("xa.com", 28, ["2001:db9::1"], "alidns"), ("zzz.test", 1, ["1.2.3.9", "8.8.4.4"], "googledns")]],
 }
+
+
+def boundary_addrs(v):
+    """addresses that tell a CIDR value apart from its neighbours: the address as WRITTEN (host bits and all),
+    first and last address of the prefix as MASKED, and the addresses just outside"""
+    try:
+        written = ipaddress.ip_address(v.split("/")[0])
+        net = ipaddress.ip_network(v, strict=False)
+    except ValueError:
+        return []
+    out = [written, net[0], net[-1]]
+    if int(net[0]) > 0:
+        out.append(net[0] - 1)
+    if int(net[-1]) < (1 << net.max_prefixlen) - 1:
+        out.append(net[-1] + 1)
+    return [str(a) for a in out]
+
+
+MAX_EXTRA_PROBES = 20
+
+
+def probes_for(case):
+    """the fixed pool of the kind + boundary probes derived from the address values of THIS case (written and
+    masked forms, direct values and geoip expansions), so that a lossy treatment of an address SET shows"""
+    kind = case["kind"]
+    base = PROBES[kind]
+    if kind == "dns_req":
+        return base
+    per_value = []
+    seen_v = set()
+    for r in case["rules"]:
+        for f in r["funcs"]:
+            cf = {"dip": "ip"}.get(f["name"], f["name"])
+            if cf not in ("ip", "sip"):
+                continue
+            for (k, v) in f["params"]:
+                e = py_expand(cf, py_canon(f["name"], k)[1], v)
+                for (_, cidr) in (e[1] if e[0] == "ok" else []):
+                    if (cf, cidr) not in seen_v:
+                        seen_v.add((cf, cidr))
+                        per_value.append((cf, boundary_addrs(cidr)))
+    extra, seen = [], set()
+    depth = 0
+    while len(extra) < MAX_EXTRA_PROBES and any(depth < len(a) for _, a in per_value):   # round-robin over the values
+        for cf, addrs in per_value:
+            if depth < len(addrs) and (cf, addrs[depth]) not in seen and len(extra) < MAX_EXTRA_PROBES:
+                seen.add((cf, addrs[depth]))
+                a = addrs[depth]
+                if kind == "routing":
+                    extra.append(_rp(a, 443, 1, "zzz.test") if cf == "ip" else _rp("9.9.9.9", 443, 1, "zzz.test", src=a))
+                else:
+                    extra.append({"domain": "zzz.test", "qtype": 1, "ips": [a], "upstream": "alidns"})
+        depth += 1
+    return base + extra
+
+
 OUTBOUNDS = {"routing": ["proxy", "g1"], "dns_req": ["alidns", "googledns"], "dns_resp": ["alidns", "googledns"]}
 FALLBACKS = {"routing": ["direct", "proxy", "block"], "dns_req": ["asis", "alidns"], "dns_resp": ["accept", "reject"]}
 
@@ -165,7 +222,16 @@ GEOSITE_EMPTY = ["cn@nope", "empty", "category-ads@cn"]
 GEOSITE_ERR = ["nosuch", "xx@ads"]
 IPS = ["1.2.3.4", "1.2.3.0/24", "1.2.0.0/16", "10.0.0.0/8", "5.5.5.5", "8.8.8.8/32", "192.168.0.0/16", "2001:db8::1", "2001:db8::/32",
        "2001:db9::/48", "::1", "0.0.0.0/1"]
-IP_KEYED = {"geoip": ["cn", "CN", "private", "Private"], "ext": ["otherip:mine", "geoip:cn"]}
+# families of related address values: CIDRs written with host bits set, nested and overlapping prefixes, duplicates
+# up to masking, v4-in-v6 spellings; drawn several at a time (in any order) into one condition and into neighbours
+IP_FAMILIES = [
+    ["192.168.1.0/24", "192.168.1.1/16", "192.168.0.0/16", "192.168.1.7", "192.168.2.0/23", "192.168.255.255/17", "192.168.1.128/25"],
+    ["10.0.0.1/8", "10.0.0.0/8", "10.1.2.3/16", "10.1.2.0/24", "10.1.2.3", "10.255.255.255/9"],
+    ["1.2.3.4/24", "1.2.3.0/24", "1.2.0.0/16", "1.2.3.4", "1.2.3.200/25", "1.2.3.5/31"],
+    ["2001:db8::1/32", "2001:db8::/32", "2001:db8::/48", "2001:db8::1", "2001:db8:0:1::5/64", "2001:db8:ffff::1/33"],
+    ["::ffff:1.2.3.0/120", "::ffff:1.2.3.4", "1.2.3.0/24", "::ffff:1.2.3.77/121"],
+]
+IP_KEYED = {"geoip": ["cn", "CN", "private", "Private", "lan"], "ext": ["otherip:mine", "geoip:cn"]}
 GEOIP_EMPTY = ["empty"]
 GEOIP_ERR = ["nosuch", "inv"]
 PORTS = ["80", "443", "1000-2000", "53", "80-81", "0-1023", "1500"]
@@ -179,8 +245,10 @@ FUNCS = {"routing": ["domain"] * 5 + ["dip", "ip", "sip", "dport", "port", "spor
          "dns_resp": ["qname", "qname", "qtype", "ip", "ip", "upstream"]}
 
 
-def gen_param(rng, kind, fname, flags):
+def gen_param(rng, kind, fname, flags, fam=None):
     """-> (key, val)"""
+    if fam is not None and rng.random() < 0.85:
+        return ("", rng.choice(fam))
     if fname in ("domain", "qname"):
         keys = ["", "domain", "suffix", "full", "keyword", "contains", "regex", "geosite", "geosite", "ext"] if fname == "domain" \
             else ["suffix", "full", "keyword", "regex", "geosite", "geosite", "ext"]
@@ -238,12 +306,18 @@ def gen_func(rng, kind, flags, like=None):
         fname = rng.choice(FUNCS[kind])
         neg = rng.random() < flags["p_neg"]
     n = rng.choice([1, 1, 1, 2, 2, 3, 4])
+    fam = None
+    if fname in ("ip", "dip", "sip") and rng.random() < 0.6:
+        fam = rng.choice(IP_FAMILIES)
+        if like is not None and like["params"] and rng.random() < 0.75:    # the neighbour's family: merged sets overlap
+            fam = next((f for f in IP_FAMILIES if like["params"][0][1] in f), fam)
+        n = rng.choice([1, 2, 2, 3, 4])
     params = []
     for _ in range(n):
         if params and rng.random() < 0.25:
             params.append(rng.choice(params))  # repeated value
         else:
-            params.append(gen_param(rng, kind, fname, flags))
+            params.append(gen_param(rng, kind, fname, flags, fam))
     return {"name": fname, "not": neg, "params": params}
 
 
@@ -299,7 +373,7 @@ def case_input(case):
     kind = case["kind"]
     atoms, status = case_atoms(case)
     return {"kind": kind, "rules": "\n".join(render_rule(r) for r in case["rules"]), "fallback": case["fallback"],
-            "outbounds": OUTBOUNDS[kind], "geosite": GEOSITE, "geoip": GEOIP, "probes": PROBES[kind],
+            "outbounds": OUTBOUNDS[kind], "geosite": GEOSITE, "geoip": GEOIP, "probes": probes_for(case),
             "atoms": [list(a) for a in atoms]}
 
 
@@ -399,7 +473,8 @@ def prepare(case, res):
     P.case, P.res, P.kind = case, res, kind
     P.crashed = res is None
     P.base, P.status = case_atoms(case)
-    probes = PROBES[kind]
+    probes = probes_for(case)
+    P.probes = probes
     n = len(probes)
     P.n = n
     if P.crashed:
@@ -519,15 +594,15 @@ def py_classes(P):
     ms = []
     k = 1 if P.kind == "routing" else 0
     st = P.stages[k] if len(P.stages) > k else None
+    if impl_merged_negated(P):
+        ms.append(M_NEG)
     if st and len(st) == len(P.outs):
         for a, b, oa, ob, ra, rb in zip(st, st[1:], P.outs, P.outs[1:], P.res["outs"], P.res["outs"][1:]):
             if len(a["funcs"]) == 1 and len(b["funcs"]) == 1 and a["funcs"][0]["name"] == b["funcs"][0]["name"] \
-                    and a["funcs"][0]["not"] == b["funcs"][0]["not"] and ra["print"] == rb["print"]:
-                if a["funcs"][0]["not"] and M_NEG not in ms:
-                    ms.append(M_NEG)
+                    and not a["funcs"][0]["not"] and not b["funcs"][0]["not"] and ra["print"] == rb["print"]:
                 if oa[1] != ob[1] and M_OUT not in ms:
                     ms.append(M_OUT)
-    if has_empty_expansion(P):
+    if impl_built_empty(P):
         ms.append(M_EMPTY)
     st2 = P.stages[k + 1] if len(P.stages) > k + 1 else None
     for r in st2 or []:
@@ -757,6 +832,46 @@ TIE_CODES = (1, 4, 5, 6)     # impl <> model / grounding / oracle
 THM_CODES = (3,)             # model <> spec although the proved hypotheses hold
 
 
+def unaligned_overlap(P):
+    """the optimised list holds an address condition with a CIDR written with host bits set that overlaps another
+    value of the same condition (what a lossy canonicalisation of address sets would get wrong)"""
+    st = P.stages[-1] if not P.crashed and P.stages and P.stages[-1] else []
+    for r in st:
+        for f in r["funcs"]:
+            if f["name"] not in ("ip", "sip") or len(f["params"]) < 2:
+                continue
+            nets = []
+            for p_ in f["params"]:
+                try:
+                    nets.append((ipaddress.ip_network(p_["v"], strict=False), ipaddress.ip_address(p_["v"].split("/")[0])))
+                except ValueError:
+                    pass
+            for i, (n1, w1) in enumerate(nets):
+                if w1 != n1[0]:
+                    for j, (n2, _) in enumerate(nets):
+                        if i != j and n1.version == n2.version and n1 != n2 and n1.overlaps(n2):
+                            return True
+    return False
+
+
+def impl_merged_negated(P):
+    """the implementation's merge stage fused negated single-condition rules (repaired by /repo ec2de34)"""
+    if P.crashed:
+        return False
+    k = 1 if P.kind == "routing" else 0
+    if len(P.stages) <= k + 1 or not P.stages[k] or not P.stages[k + 1]:
+        return False
+    cnt = lambda st: len([r for r in st if len(r["funcs"]) == 1 and r["funcs"][0]["not"]])
+    return cnt(P.stages[k + 1]) < cnt(P.stages[k])
+
+
+def impl_built_empty(P):
+    """the implementation built a program from a list with a condition without values (repaired by /repo dd2eef7)"""
+    if P.crashed or not P.stages or not P.stages[-1]:
+        return False
+    return any(not f["params"] for r in P.stages[-1] for f in r["funcs"]) and not P.opt_err
+
+
 def has_empty_expansion(P):
     k = 1 if P.kind == "routing" else 0
     st = P.stages[k] if not P.crashed and len(P.stages) > k else None
@@ -769,13 +884,16 @@ def classify(ev):
     ms = []
     if ev["crashed"] or (s and s[6] == 2):
         ms.append(M_CRASH)     # repaired by /repo 2540ec6: a crash is a regression
-    if s and s[3] > 0:
+    if impl_merged_negated(P):
         ms.append(M_NEG)
-    if has_empty_expansion(P) or (s and s[7] > 0):
+    if impl_built_empty(P):
         ms.append(M_EMPTY)
-    if s and s[4] > 0:
+    # the two open findings are properties of the MODELLED code: they can explain a failure only when the
+    # implementation still agrees with the model (AST after every stage, build result, decisions)
+    deviates = any(c in (1, 11, 13) for (_, c) in ev["errors"])
+    if not deviates and s and s[4] > 0:
         ms.append(M_OUT)
-    if s and s[5] > 0:
+    if not deviates and s and s[5] > 0:
         ms.append(M_DEDUP)
     return ms or [M_OTHER]
 
@@ -830,7 +948,7 @@ def shrink(sc, binary, case, want, rounds=40):
 
 def describe(case, ev):
     P = ev["P"]
-    probes = PROBES[case["kind"]]
+    probes = probes_for(case)
     bad = [i for (i, c) in ev["errors"] if c == 2]
     d = {"kind": case["kind"], "config_text": "\n".join(render_rule(r) for r in case["rules"]), "fallback": case["fallback"],
          "case": {k: v for k, v in case.items() if not k.startswith("_")}, "errors": ev["errors"], "signature": ev["sig"]}
@@ -1065,15 +1183,17 @@ def main(argv):
         cov.update(
             evaluations=len(all_ev), distinct_nontrivial=len(nontrivial), distinct_signatures=len(set(sigs)),
             rule="rule lists rendered as configuration text and parsed by the real parser; biased to neighbours sharing function/negation/outbound, repeated and overlapping values, "
-                 "mixed keys, aliases dip/dport/domain keys, geosite/geoip/ext references incl. attribute filters, empty and failing expansions, outbounds with marks/must/must_rules; "
+                 "mixed keys, aliases dip/dport/domain keys, address families (CIDRs with host bits set, nested/overlapping prefixes in any order, duplicates up to masking, v4-in-v6 spellings) drawn into one condition and into mergeable neighbours,  geosite/geoip/ext references incl. attribute filters, empty and failing expansions, outbounds with marks/must/must_rules; "
                  "signature = (rules merged away, values removed by dedup, values added by geodata, negated neighbours that must stay unmerged, outbound-print hazards, dedup print collisions, model class, conditions left without values); "
                  "non-trivial = distinct signatures in which at least one optimizer changed the list",
             traces_validated_against_impl=len([ev for ev in live if not ev["crashed"] and not any(c in (1, 5, 6, 11, 12, 13, 14) for (_, c) in ev["errors"])]),
-            comparisons="per stage (alias, dat, merge+sort, dedup): impl AST = model AST; per probe: impl decision (optimised list) = spec decision on the list as written; "
+            comparisons="probes = fixed pool per kind + per-case boundary probes (address as written, first/last of the masked prefix, the two addresses outside) of every address value incl. geoip expansions; per stage (alias, dat, merge+sort, dedup): impl AST = model AST; per probe: impl decision (optimised list) = spec decision on the list as written; "
                         "impl decision (optimised / un-merged list) = model's compiled program (lower + scan of the model's lists); model decision = spec (code 3 if the partial theorems' hypotheses hold, 7 otherwise)",
             cases_by_kind=kinds, skipped=len(all_ev) - len(live),
             cases_merging=len([s for s in sigs if s[0] > 0]), cases_dedup=len([s for s in sigs if s[1] > 0]), cases_geodata=len([s for s in sigs if s[2] > 0]),
-            cases_negated_neighbours=len([s for s in sigs if s[3] > 0]), cases_ext_without_colon=len(risky), cases_model_error=len([s for s in sigs if s[6] == 1]), cases_build_error_empty_condition=len([s for s in sigs if s[7] > 0]), cases_model_crash=len([s for s in sigs if s[6] == 2]),
+            cases_negated_neighbours=len([s for s in sigs if s[3] > 0]), cases_ext_without_colon=len(risky), cases_model_error=len([s for s in sigs if s[6] == 1]),
+            cases_unaligned_cidr_overlapping_in_one_set=len([ev for ev in live if unaligned_overlap(ev["P"])]),
+            probes_total=sum(ev["P"].n for ev in live), probes_boundary=sum(ev["P"].n - len(PROBES[ev["P"].kind]) for ev in live), cases_build_error_empty_condition=len([s for s in sigs if s[7] > 0]), cases_model_crash=len([s for s in sigs if s[6] == 2]),
             cases_outside_partial_hypotheses=len([ev for ev in live if any(c == 7 for (_, c) in ev["errors"])]),
             impl_vs_spec_failures={k: {"count": v["count"], "status": v["status"], "minimal": v["minimal"]} for k, v in reported.items()},
             samples=[{"kind": cases[len(corpus)]["kind"], "config_text": "\n".join(render_rule(r) for r in cases[len(corpus)]["rules"]),
